@@ -59,6 +59,21 @@ def trace_validate(ctx, hist_path, label):
     return recs
 
 
+def run_tsan(ctx, seed, count):
+    # the same free-running threads once more under the race detector: its reports are violations (unsynchronised access to the ring), the
+    # histories are judged like the others; silence of the detector proves nothing (the interleaving search above is the deciding part)
+    p = ctx.driver("threadlink_driver", "tsanhooks", ["threads", seed, count, ctx.path("hist_tsan.ndjson")],
+                   env={"TSAN_OPTIONS": "halt_on_error=0 exitcode=0 report_signal_unsafe=0"})
+    races = p.stderr.count("WARNING: ThreadSanitizer: data race")
+    ctx.notes["race_detector_reports"] = races
+    if races:
+        first = p.stderr[p.stderr.find("WARNING: ThreadSanitizer: data race"):][:900]
+        where = [ln.strip() for ln in first.splitlines() if "#0" in ln or "#1" in ln][:4]
+        ctx.reject(dict(clause="data_race_reported_by_the_race_detector"), dict(kind="tsan", seed=seed),
+                   "ThreadSanitizer reported %d data race(s) while one thread wrote and one thread polled: %s" % (races, "; ".join(where)))
+    trace_validate(ctx, ctx.path("hist_tsan.ndjson"), "threads_tsan")
+
+
 def replay(ctx, N, cfg, num, depth, tag):
     raw = ctx.path("sim_%s.raw" % tag)
     if os.path.exists(raw):
@@ -114,7 +129,9 @@ def run(ctx):
                        "real-thread histories are ordered by tickets of one atomic counter taken before a call and after its return"]
     if ctx.replay:
         case = json.load(open(ctx.replay))["case"]
-        if case["kind"] == "history":
+        if case["kind"] == "tsan":
+            run_tsan(ctx, case["seed"], 200)
+        elif case["kind"] == "history":
             p = ctx.write_ndjson("replay_hist.ndjson", [dict(N=case["N"], ev=case["ev"])])
             trace_validate(ctx, p, "replay")
         else:
@@ -148,4 +165,5 @@ def run(ctx):
     recs = trace_validate(ctx, ctx.path("hist_random.ndjson"), "random")
     ctx.driver("threadlink_driver", "hooks", ["threads", ctx.seed, 3000 if thorough else 300, ctx.path("hist_threads.ndjson")])
     recs2 = trace_validate(ctx, ctx.path("hist_threads.ndjson"), "threads")
+    run_tsan(ctx, ctx.seed + 1, 2000 if thorough else 200)
     ctx.sample(dict(kind="history", N=recs2[0]["N"], events=recs2[0]["ev"][:16]))
